@@ -21,6 +21,7 @@ from vf.pfbase import PP
 from vf.props import c15
 
 CASE = None
+ACTION_R = -1
 HERE = os.path.dirname(os.path.dirname(os.path.dirname(os.path.abspath(__file__))))
 
 
@@ -47,7 +48,27 @@ CORPUS = [
     ("[[1, 2, 3], ('a', 'b'), {1, 2}, frozenset([3]), {'k': None}]", {'width': 20}),
     # a struct sequence whose repr cannot be parsed (field names unresolvable)
     ('time.struct_time((vf.stdvals.BAD,) * 9)', {}),
+    # an instance of a class whose *base* class may get a printer by name (action R)
+    ("vf.props.c19.RecChild(user='alice', action='login')", {}),
+    ("[vf.props.c19.RecBase(x=1)]", {}),
 ]
+
+
+class RecBase(dict):
+    pass
+
+
+class RecChild(RecBase):
+    pass
+
+
+def action_register():
+    """Action R of a history: a printer is registered *by name* for RecBase
+    (what install_extras and plug-ins do) - possibly after values of the class
+    or of its subclass have already been printed."""
+    @PP.register_pretty('vf.props.c19.RecBase')
+    def pretty_recbase(value, ctx):
+        return PP.pretty_call_alt(ctx, type(value), kwargs=sorted(value.items()))
 
 
 def corpus_ns():
@@ -72,20 +93,22 @@ def fresh_baselines():
         "from vf.props import c19\n"
         "import prettyprinter\n"
         "i = int(sys.argv[1])\n"
+        "if sys.argv[2] == 'R': c19.action_register()\n"
         "src, kw = c19.CORPUS[i]\n"
         "v = eval(src, c19.corpus_ns())\n"
         "print(json.dumps(prettyprinter.pformat(v, **kw)))\n" % HERE)
-    out = []
+    out = {'': [], 'R': []}
     procs = []
-    for i in range(len(CORPUS)):
-        procs.append(subprocess.Popen([sys.executable, '-c', code, str(i)], stdout=subprocess.PIPE,
-                                      stderr=subprocess.PIPE, text=True,
-                                      env=dict(os.environ, PYTHONHASHSEED='0')))
-    for i, p in enumerate(procs):
+    for flag in ('', 'R'):
+        for i in range(len(CORPUS)):
+            procs.append((flag, i, subprocess.Popen(
+                [sys.executable, '-c', code, str(i), flag or '-'], stdout=subprocess.PIPE,
+                stderr=subprocess.PIPE, text=True, env=dict(os.environ, PYTHONHASHSEED='0'))))
+    for flag, i, p in procs:
         so, se = p.communicate(timeout=300)
         if p.returncode != 0:
-            raise RuntimeError('baseline %d failed: %s' % (i, se[-800:]))
-        out.append(json.loads(so.strip().split('\n')[-1]))
+            raise RuntimeError('baseline %d%s failed: %s' % (i, flag, se[-800:]))
+        out[flag].append(json.loads(so.strip().split('\n')[-1]))
     return out
 
 
@@ -133,7 +156,8 @@ class HistoryCase(base.CaseBase):
     def __init__(self, params):
         super().__init__(params)
         self.baselines = params['baselines']
-        self.indices = params.get('indices') or list(range(len(CORPUS)))
+        # the last "index" of the full alphabet is the registration action R
+        self.indices = params.get('indices') or (list(range(len(CORPUS))) + [ACTION_R])
         self.k = params['k']
         self.first = params.get('first')
         self.slice = params.get('slice', 'default')
@@ -144,6 +168,9 @@ class HistoryCase(base.CaseBase):
 
     def pre(self, hist, target, w, rw):
         n = len(self.indices)
+        ntargets = n - 1 if self.indices[-1] == ACTION_R else n     # the action is never a target
+        if not (0 <= target and target < ntargets):
+            return False
         for j, h in enumerate(hist):
             if j < self.k:
                 if j == 0 and self.first is not None:
@@ -153,7 +180,7 @@ class HistoryCase(base.CaseBase):
                     return False
             elif h != 0:
                 return False
-        return 0 <= target and target < n and pfbase.slice_pre(self.slice, w, rw)
+        return pfbase.slice_pre(self.slice, w, rw)
 
     def concretise(self, x):
         for q in range(len(self.indices)):
@@ -171,19 +198,25 @@ class HistoryCase(base.CaseBase):
 
     def execute(self, hs, t, w, rw):
         reset_all()
-        describe = lambda: 'history=%r target=%r (%s)' % (hs, t, CORPUS[t][0][:60])
+        describe = lambda: 'history=%r (index -1 = register a printer by name for RecBase) target=%r (%s)' % (
+            hs, t, CORPUS[t][0][:60])
         try:
             with warnings.catch_warnings():
                 warnings.simplefilter('ignore')
                 values = {}
                 snaps = {}
-                for i in set(hs + [t]):
+                for i in set(x for x in hs + [t] if x != ACTION_R):
                     # values are built untraced (the tracer would substitute
                     # its own datetime / container proxies)
                     with NoTracing():
                         values[i] = eval(CORPUS[i][0], dict(self.ns))
                         snaps[i] = snapshot(values[i])
+                registered = False
                 for i in hs:
+                    if i == ACTION_R:
+                        action_register()
+                        registered = True
+                        continue
                     kw = dict(CORPUS[i][1])
                     if self.traced and not self.native:
                         pfbase.stream_text(pfbase.sdocs(values[i], kw.get('width', 79), kw.get('width', 71),
@@ -200,17 +233,21 @@ class HistoryCase(base.CaseBase):
                             got = PKG.pformat(values[t], **kw)
                     else:
                         got = PKG.pformat(values[t], **kw)
-                    want = self.baselines[t]
+                    want = self.baselines['R' if registered else ''][t]
                 else:
                     # symbolic width: compare with the same call in reset state
                     kw.pop('width', None)
                     if self.native:
                         got = PKG.pformat(values[t], width=w, ribbon_width=rw, **kw)
                         reset_all()
+                        if registered:
+                            action_register()
                         want = PKG.pformat(eval(CORPUS[t][0], dict(self.ns)), width=w, ribbon_width=rw, **kw)
                     else:
                         got = pfbase.stream_text(pfbase.sdocs(values[t], w, rw, False, traced_printers=True, **kw))
                         reset_all()
+                        if registered:
+                            action_register()
                         with NoTracing():
                             again = eval(CORPUS[t][0], dict(self.ns))
                         want = pfbase.stream_text(pfbase.sdocs(again, w, rw, False,
@@ -224,7 +261,7 @@ class HistoryCase(base.CaseBase):
             return self.fail('C19:output-depends-on-history',
                              lambda: describe() + '\ngot:\n%s\nfresh interpreter:\n%s' % (got, want))
         with NoTracing():
-            for i in set(hs + [t]):
+            for i in set(x for x in hs + [t] if x != ACTION_R):
                 if snapshot(values[i]) != snaps[i]:
                     return self.fail('C19:input-mutated',
                                      lambda: describe() + '\nvalue %d: %r\nbefore: %r' % (i, snapshot(values[i]), snaps[i]))
@@ -268,7 +305,7 @@ def replay_case(task):
 
 def cases(tier, seed):
     baselines = fresh_baselines()
-    n = len(CORPUS)
+    n = len(CORPUS) + 1          # + the registration action
     out = []
     out.append({'name': 'k0:all-targets', 'family': 'history',
                 'params': {'k': 0, 'baselines': baselines, 'traced': True}, 'budget': 200.0, 'twin': True})
